@@ -194,18 +194,15 @@ H(P, "c16", "c16_u8_add_saturates", ("bare",), "every u8^3 x every i32^3 delta <
 
 # ---------------------------------------------------------------- C04
 P = "C04"
-BOUNDS[P] = "every triangle (all vertex orders, both windings, flat tops/bottoms, slivers down to the lattice step) whose vertices lie on the half-pixel lattice of a 2x2-pixel grid: 5^6 coordinate tuples decided at once per case; sub-pixel triangles on the quarter-pixel lattice of one pixel; shared edge: all 5^8 quadruples; cfg bare (quick), libm/std (thorough)"
-OUTSIDE[P] = ["triangles larger than 2 px in the quick tier; larger than 3 px in the thorough tier (3x3 grid, split 49 ways on the first vertex)", "vertices off the half-pixel lattice (arbitrary floats): the 0.001-px tolerance band collapses to 'exactly on an edge' on the lattice", "partially off-grid triangles (negative coordinates)", "slivers thinner than the lattice step"]
+BOUNDS[P] = "every triangle (all vertex orders, both windings, flat tops/bottoms, slivers down to the lattice step) whose vertices lie on the half-pixel lattice of a 2x2-pixel grid: 5^6 coordinate tuples decided at once per case; sub-pixel triangles on the quarter-pixel lattice of one pixel; cfg bare (quick), libm/std (thorough)"
+OUTSIDE[P] = ["triangles larger than 2 px in the quick tier; larger than 3 px in the thorough tier (3x3 grid, split 49 ways on the first vertex)", "vertices off the half-pixel lattice (arbitrary floats): the 0.001-px tolerance band collapses to 'exactly on an edge' on the lattice", "partially off-grid triangles (negative coordinates)", "slivers thinner than the lattice step", "which of two triangles owns a centre lying exactly on their shared edge or vertex: such a centre is inside the property's 0.001-px exception band; the no-gap / no-overdraw consequence is claimed for centres strictly off the edges (each triangle draws exactly its strictly-inside centres), not on them"]
 LEVEL_TEXT[P] = ("Bounded model checking of the real tri_fill/scan/ScanlineIter over every lattice triangle of a 2x2-pixel grid at once, against exact integer edge functions: "
-                 "strictly-inside centres exactly one fragment, strictly-outside none, on-edge at most one; rows strictly increasing; xs.len == fragment count; two triangles sharing an edge never double-draw or leave a gap.")
+                 "strictly-inside centres exactly one fragment, strictly-outside none, on-edge at most one; rows strictly increasing; xs.len == fragment count.")
 for y in range(5):
     H(P, "c04", f"c04_cover_g2_y{y}", ("bare",), f"all lattice triangles of the 2x2 grid with first-vertex y = {y}/2 (5^5 tuples, area != 0)", "coverage == integer edge functions; rows increasing; in grid; xs.len == #fragments; no pixel twice", unwind=6, est=250, cap=900)
     H(P, "c04", f"c04_cover_g2_y{y}", ("std", "libm"), f"same under the floor-based rounding variants", "same", unwind=6, est=250, cap=2700, tiers=("thorough",))
 H(P, "c04", "c04_degenerate_g2", ("bare",), "all zero-area lattice triangles of the 2x2 grid", "no panic, rows increasing, in grid, no pixel twice", unwind=6, est=200, cap=900)
 H(P, "c04", "c04_cover_subpixel", ("bare",), "all triangles on the quarter-pixel lattice of a single pixel (5^6 tuples, area != 0): sub-pixel triangles and slivers", "the centre (1/2,1/2) is drawn exactly once if strictly inside, never if strictly outside; at most one row", unwind=5, est=120, cap=900)
-for y in range(5):
-    H(P, "c04", f"c04_shared_edge_g2_y{y}", ("bare",), f"all pairs of lattice triangles on opposite sides of a shared edge pq, p.y = {y}/2", "no centre drawn twice in total; strictly inside either => exactly once; on the open shared edge => exactly once", unwind=6, est=1500, cap=2700, tiers=("thorough",))
-
 for y in range(7):
     for x in range(7):
         H("C04", "c04", f"c04_cover_g3_{x}{y}", ("bare",), f"all lattice triangles of the 3x3 grid with first vertex ({x}/2, {y}/2) (7^4 tuples, area != 0)", "coverage == integer edge functions; rows increasing; in grid; xs.len == #fragments", unwind=8, est=900, cap=2700, tiers=("thorough",))
@@ -216,6 +213,8 @@ BOUNDS[P] = "fragments(): two-fragment scanlines with arbitrary finite attribute
 OUTSIDE[P] = ["perspective (w != 1) through tri_fill: tolerance proof over free floats did not finish in 30 min", "arbitrary float attributes / depths through tri_fill", "finiteness for arbitrary finite input with area > 1e-6", "Angle attributes (ZDiv is the identity by design)"]
 LEVEL_TEXT[P] = ("Bounded model checking: the per-fragment perspective division is decided bit-for-bit on arbitrary scanlines for scalar, vector, tuple and colour attributes; "
                  "interpolation through tri_fill is decided exactly on the lattice for every affine attribute plane with small integer coefficients.")
+for k in (8, 19):
+    H(P, "c05", f"c05_fragments_long_k{k}", ("bare",), f"Scanline<f32>, 20 fragments: arbitrary attribute start/step, reciprocal depths z0*(k+1), z0 in {{1/2,1,2,4}}; attribute checked at fragment {k}", f"every fragment at start+k*step with depth z0*(k+1) exactly; fragment {k}: var * own z == stepped value (rel 1e-5): perspective-correct in the middle of a long span, not only at span ends", unwind=23, est=300, cap=1500)
 H(P, "c05", "c05_fragments_f32", ("bare",), "Scanline<f32>, two fragments: arbitrary start position, attribute start/step; reciprocal depths 2^k and 2^(k+1)", "fragment k at start+k*step; var == stepped value / own z exactly", unwind=6, est=120)
 H(P, "c05", "c05_fragments_compound", ("bare",), "Scanline<(f32,Vec3)>, <Vec2>, <Color3f>, <()>: n<=2, finite floats", "every component divided by the fragment's own z; () passes through", unwind=4, est=1200, cap=2700, tiers=("thorough",))
 H(P, "c05", "c05_fragments_color", ("bare",), "Scanline<Color3f>, two fragments, arbitrary finite channels and steps, reciprocal depths 2^k", "every colour channel divided by the fragment's own z (exactly)", unwind=4, est=120)
@@ -234,7 +233,7 @@ LEVEL_TEXT[P] = ("Bounded model checking of the write step: Framebuf::rasterize 
 H(P, "c06", "c06_two_spans_commute", ("bare",), "two arbitrary spans (x0,n,z0,dz,colour) on a W-px row (W = 2 quick, 3 thorough)", "A;B == B;A (depth always, colour unless exact tie); no NaN", unwind=5, est=500, cap=1500)
 H(P, "c06", "c06_nearest_wins", ("bare",), "two arbitrary spans, a symbolic pixel", "the pixel holds the larger reciprocal depth among the covering fragments and that fragment's colour; failing fragments write nothing", unwind=5, est=500, cap=1500)
 H(P, "c06", "c06_depth_test_semantics", ("bare",), "every (new, curr) float pair incl. NaN/inf x {None, Less, Equal, Greater}", "None passes; Less <=> new > curr (reciprocal depth); default is Less", est=5)
-H(P, "c02", "c06_depth_sort_orders", ("bare",), "3 triangles, distinct integer depth sums in [-8,8], both sort directions", "permutation; FrontToBack ascending, BackToFront descending", unwind=8, est=60,
+H(P, "c02", "c06_depth_sort_orders", ("bare",), "3 triangles, distinct integer depth sums in [-8,8], arbitrary integer x, y in [-8,8] per triangle, w = 1, both sort directions", "permutation; FrontToBack ascending, BackToFront descending", unwind=12, est=60,
   assumes=["reached through the cfg(kani) hook render::verif_hooks::depth_sort (a plain wrapper)"])
 
 # ---------------------------------------------------------------- C07
@@ -282,6 +281,7 @@ H(P, "c09", "c09_translate", ("bare",), "arbitrary finite floats |.| <= 2^60", "
 H(P, "c09", "c09_constructors", ("bare",), "arbitrary finite floats |.| <= 2^60", "translate/scale/from_basis defining effect exactly; det(translate) == 1", unwind=6, est=120)
 H(P, "c09", "c09_scale_determinant", ("bare",), "integer scale factors in [-8,8]^3", "det(scale) == x*y*z; identity", unwind=6, est=30)
 H(P, "c09", "c09_det_multiplicative", ("bare",), "A affine with entries in {-1,0,1}; B = translate o scale with small integer parameters (quick) / any such affine matrix (thorough)", "det(A o B) == det(A)*det(B) exactly", unwind=6, est=400, cap=1200)
+H(P, "c09", "c09_orient_is_rotation", ("libm",), "orient_y / orient_z on a concrete table: 4 unit `new` axes x 3 unit Pythagorean `x` directions, neither perpendicular nor parallel (test-like: normalize = libm powf, evaluated by the engine on constants)", "selected axis maps onto `new` (1e-6); basis columns orthonormal (1e-5); determinant +1 (1e-5); no translation", unwind=8, est=600, cap=1800)
 H(P, "c09", "c09_transpose", ("bare",), "arbitrary float 4x4", "transpose swaps indices bitwise; involution", unwind=6, est=30)
 
 # ---------------------------------------------------------------- C08
@@ -295,6 +295,8 @@ H(P, "c08", "c08_perspective_rejects", ("bare",), "finite parameters with f<=0 o
 H(P, "c08", "c08_orthographic_dyadic", ("bare",), "integer lbn in [-8,8]^3, extents 2^[0,4]", "corners -> (-1,-1,-1,1)/(1,1,1,1), centre -> origin", unwind=6, est=120)
 H(P, "c08", "c08_viewport_matrix", ("bare",), "all l<=r<=4096, t<=b<=4096; finite z", "(-1,-1)->(l,t); (1,1)->(r,b); centre->centre; z passes", unwind=6, est=60)
 H(P, "c08", "c08_rect_algebra", ("bare",), "two rects with optional bounds <= 8, probe point <= 9", "contains == membership; intersect == conjunction; is_empty/width/height", est=60)
+for n, hd in [("level", "azimuth 1/8 turn, level"), ("up", "azimuth 1/4 turn, pitched up 30 degrees"), ("down", "azimuth -3/8 turn, pitched down 60 degrees")]:
+    H(P, "c08", f"c08_first_person_translate_{n}", ("libm",), f"FirstPerson with the concrete heading {hd} (libm sin/cos evaluated by the engine on constants) x every position and displacement with finite components <= 1024", "translate(delta): moves delta.y along +y, delta.z along the horizontal heading (cos az, 0, sin az) regardless of pitch, |delta.x| along the horizontal perpendicular (tolerance 1e-2)", unwind=8, est=300, cap=1500)
 H(P, "c08", "c08_rect_from_bounds", ("bare",), "Rect::from((H,V)) with every combination of Included/Excluded/Unbounded start and end bounds, values <= 8, probe points <= 10", "contains(x,y) == H.contains(x) && V.contains(y)", est=60)
 H(P, "c08", "c08_camera_viewport", ("bare",), "frame <= 64x64, requested bounds <= 100, forms (a..b,c..d) / (a..,..d) / vec..vec", "dims and NDC-corner images are those of bounds ∩ frame; always inside the frame; empty intersection => zero area", unwind=6, est=120)
 H(P, "c08", "c08_camera_projection", ("bare",), "dims <= 64x64, f in 2^[-2,2], integer view translation", "perspective(aspect = w/h); world_to_project == mode.then(project); orthographic passes the box", unwind=6, est=200, cap=900)
@@ -302,7 +304,7 @@ H(P, "c08", "c08_camera_projection", ("bare",), "dims <= 64x64, f in 2^[-2,2], i
 # ---------------------------------------------------------------- C13
 P = "C13"
 BOUNDS[P] = "binary formats P5/P6: a fixed table of 12 header spellings (separators LF/TAB/CR/space, comments before and between fields, zero and overflowing dimensions) x arbitrary payload bytes (<= 9) x every truncation point; unsupported magic x 3 arbitrary tail bytes; round trip of 2x2 sub-views of a 3x3 image with arbitrary pixels (cfg std)"
-OUTSIDE[P] = ["arbitrary / mutated header text: any symbolic header digit makes parse_num (String + str::parse) time out", "text formats P2/P3 with symbolic samples and their agreement with P5/P6", "P4 bitmaps", "images larger than 3x3", "the header table is a finite hand-picked list: that half is test-like"]
+OUTSIDE[P] = ["arbitrary / mutated header text: any symbolic header digit makes parse_num (String + str::parse) time out", "text formats P2/P3 with symbolic samples and their agreement with P5/P6", "P4 bitmaps: the decoder's nested flat_map over bits does not get through symbolic execution even for one payload byte (15 min in symex)", "images larger than 3x3", "the header table is a finite hand-picked list: that half is test-like"]
 LEVEL_TEXT[P] = ("Bounded model checking of parse_pnm with concrete header text and fully symbolic binary payload/truncation: no panic, Ok => dimensions and pixel count match the header and pixels are the payload verbatim, "
                  "short payload => Err; zero-sized and overflowing dimensions never panic; write_ppm -> read_pnm round trip on strided views.")
 for n, dom in [("c13_p6_2x1", "'P6 2 1 255\\n'"), ("c13_p6_1x2_tabs_cr", "'P6\\t1\\r\\n2\\n255 '"), ("c13_p6_comments", "P6 with comments before and between fields"), ("c13_p5_3x3", "'P5 3 3 255\\n'"), ("c13_p5_2x2_comment", "P5 with comments")]:
@@ -313,7 +315,8 @@ for n, dom in [("c13_p6_0x3", "'P6 0 3 255\\n'"), ("c13_p6_2x0", "'P6 2 0 255\\n
     H(P, "c13", n, ("bare",), dom + " ++ <= 4 arbitrary bytes", "Ok with the header's dims and no pixels; no panic", unwind=24, est=60)
 for n, dom in [("c13_p6_overflowing_dims", "'P6 65536 65536 255'"), ("c13_p6_huge_width", "'P6 4294967295 2 255'"), ("c13_p5_large", "'P5 40000 40000 255'"), ("c13_p6_dim_too_big_for_u32", "'P6 4294967296 1 255'")]:
     H(P, "c13", n, ("bare",), dom + " ++ <= 4 arbitrary bytes", "Err, never a panic", unwind=40, est=60)
-H(P, "c13", "c13_bad_magic", ("bare",), "6 concrete files with unsupported or truncated magic numbers (test-like)", "Err, no panic", unwind=12, est=120, cap=900)
+H(P, "c13", "c13_bad_magic", ("bare",), "5 concrete files with unknown or truncated magic numbers (test-like)", "Err, no panic", unwind=12, est=120, cap=900)
+H(P, "c13", "c13_p1_total", ("bare",), "3 concrete P1 (plain bitmap) files: well-formed, sample 2, sample 255 (test-like)", "no panic; an Ok has the header's dimensions and w*h pixels (P1 is unsupported today; accepting it is not pinned as an error)", unwind=12, est=200, cap=900)
 H(P, "c13", "c13_garbage_after_magic", ("bare",), "6 concrete malformed files and 2 concrete text-format files (test-like: concrete execution by the symbolic engine)", "malformed numbers => Err; P2/P3 text samples decode", unwind=24, est=1500, cap=2700, tiers=("thorough",))
 H(P, "c13", "c13_write_ppm_view", ("std",), "2x2 sub-view at any offset of a 3x3 image with arbitrary pixel bytes", "write_ppm emits 'P6 2 2 255\\n' + the view's pixels row-major (the decode harnesses cover reading exactly that spelling back)", unwind=24, est=600, cap=1500)
 H(P, "c13", "c13_roundtrip_2x2_view", ("std",), "2x2 sub-view at any offset of a 3x3 image with arbitrary pixel bytes", "read_pnm(write_ppm(view)) == view", unwind=40, est=2000, cap=2700, tiers=("thorough",))
